@@ -115,11 +115,14 @@ theorem C18_delete_refines_partial (H : Hashes) (dl : Nat) {s : State} (hi : Inv
     abs (step H dl s (.deleteObject b k)).1 = (StoreSpec.step H (abs s) (.deleteObject b k)).1 ∧
     Inv (step H dl s (.deleteObject b k)).1 := delete_refines H dl hi hg
 
-/-- delete_objects: all named objects are gone, all are reported; on a bucket that does not exist the answer is
-    `NoSuchBucket` whatever the keys (`InvalidArgument` when one is refused; 0f31b61, before:
-    fs:delete-objects-in-missing-bucket). Partial — excluded, when the bucket exists: keys that do not exist
-    (fs:delete-objects-omits-missing-keys), repeated keys (fs:delete-objects-duplicate-key), non-canonical keys; error
-    answers on an existing bucket are not covered -/
+/-- delete_objects: all named objects are gone and every requested key is reported as deleted, in request order — also a key
+    that does not exist and a key the request names more than once (7d30be5; before, keys that did not exist were left out
+    of the answer: fs:delete-objects-omits-missing-keys, and a repeated key failed with `InternalError` after the first
+    removal: fs:delete-objects-duplicate-key); a request with a key both sides refuse is `InvalidArgument` and changes
+    nothing; on a bucket that does not exist the answer is `NoSuchBucket` whatever the keys (`InvalidArgument` when one is
+    refused; 0f31b61, before: fs:delete-objects-in-missing-bucket). Partial — excluded only, when the bucket exists: a
+    directory left behind at a key's path (fs:leftover-directory), non-canonical keys (fs:key-normalised,
+    fs:directory-key) -/
 theorem C18_delete_objects_refines_partial (H : Hashes) (dl : Nat) {s : State} (hi : Inv s) {b : Bytes}
     {keys : List Bytes} (hg : DeleteObjectsOk s b keys) :
     (step H dl s (.deleteObjects b keys)).2 = (StoreSpec.step H (abs s) (.deleteObjects b keys)).2 ∧
@@ -362,6 +365,19 @@ example : CopyOk (run H0 4096 {} (demo.take 3)).1 [98, 107, 98] kX bka kDF := by
 example : UploadPartCopyOk (run H0 4096 {} (demo.take 23)).1 bka kX (some 1) 2 [98, 107, 98] kDE none := by decide
 /-- delete_objects on a bucket that does not exist (also with a repeated key and with a key both sides refuse) -/
 example : DeleteObjectsOk (run H0 4096 {} (demo.take 3)).1 [98, 107, 98] [kX, kX, [46, 46]] := by decide
+/-- delete_objects on an existing bucket with a key that does not exist, a key named twice and (second example) a key both
+    sides refuse: inside the predicate (7d30be5); every requested key is reported, the object is gone -/
+example :
+    let s := (run H0 4096 {} (demo.take 3)).1
+    DeleteObjectsOk s bka [kA, kX, kA, kDE] ∧
+    (step H0 4096 s (.deleteObjects bka [kA, kX, kA, kDE])).2 = .deleted [kA, kX, kA, kDE] ∧
+    (step H0 4096 (step H0 4096 s (.deleteObjects bka [kA, kX, kA, kDE])).1 (.getObject bka kA none)).2 =
+      .err .NoSuchKey := by decide
+example : DeleteObjectsOk (run H0 4096 {} (demo.take 3)).1 bka [kA, [46, 46]] ∧
+    (step H0 4096 (run H0 4096 {} (demo.take 3)).1 (.deleteObjects bka [kA, [46, 46]])).2 = .err .InvalidArgument := by
+  decide
+/-- … and it still excludes the recorded deviations: a key that is not in canonical form (fs:key-normalised) -/
+example : ¬ DeleteObjectsOk (run H0 4096 {} (demo.take 3)).1 bka [[100, 47, 47, 101]] := by decide
 /-- delete_object of a key that does not exist, in an existing bucket and in a bucket that does not exist -/
 example : DeleteOk (run H0 4096 {} (demo.take 3)).1 bka kX := by decide
 example : DeleteOk (run H0 4096 {} (demo.take 3)).1 [98, 107, 98] kX := by decide
